@@ -165,6 +165,10 @@ def apply_mutation(o, kind, mut, p):
                 o[idx] ^= 1
             else:
                 o[idx] += 1
+        elif mut == "flip_sym":
+            i, j = p["idx"]
+            o[i, j] ^= 1
+            o[j, i] = o[i, j]
         elif mut == "fill":
             o.fill(p["v"])
         elif mut == "swapcols":
